@@ -32,6 +32,7 @@ TREES = {
     'restB': {'f1': BLK[0] + BLK[1], 'f2': BLK[2] + BLK[1]},
     'restC': {'f1': BLK[0] + BLK[1] + BLK[0] + BLK[2]},
     'restS': {'f1': BLK[0] + BLK[1]},
+    'restD': {'f1': BLK[0], 'f2': BLK[1]},      # two one-chunk files in one new directory
 }
 SETTINGS = {'encryption': None, 'chunking': {'min_length': 8, 'max_length': 8}, 'hashing': {'name': 'sha2', 'bits': 256}}
 
@@ -301,8 +302,14 @@ def main():
         # line-level preemption with two deviations on the smallest harnesses (unsynchronised accesses
         # inside and between the closures that share state, incl. the per-file lock table and file writes)
         plan.append(({'kind': 'restore', 'tree': 'restS', 'N': 2, 'be': 'plain', 'lines': True}, 2, True))
+        plan.append(({'kind': 'restore', 'tree': 'restB', 'N': 2, 'be': 'plain', 'lines': True}, 1, True))
+        plan.append(({'kind': 'restore', 'tree': 'restD', 'N': 2, 'be': 'plain', 'lines': True}, 1, True))
+        plan.append(({'kind': 'restore', 'tree': 'restD', 'N': 2, 'be': 'async', 'lines': True}, 1, True))
         plan.append(({'kind': 'snapshot', 'tree': 'snapA', 'N': 2, 'be': 'plain', 'lines': True}, 2, True))
     if t == 'quick':
+        plan.append(({'kind': 'restore', 'tree': 'restB', 'N': 2, 'be': 'plain', 'lines': True}, 1, True))
+        plan.append(({'kind': 'restore', 'tree': 'restD', 'N': 2, 'be': 'plain', 'lines': True}, 1, True))
+        plan.append(({'kind': 'restore', 'tree': 'restD', 'N': 2, 'be': 'async', 'lines': True}, 1, True))
         plan.append(({'kind': 'restore', 'tree': 'restS', 'N': 2, 'be': 'plain', 'lines': True}, 1, True))
         plan.append(({'kind': 'snapshot', 'tree': 'snapA', 'N': 2, 'be': 'plain', 'lines': True}, 1, True))
 
